@@ -43,13 +43,15 @@ PROPS = {
                           "stencils the code declares; calculators compared numerically",
                 text="The specification decides that the stencil scheme differentiates polynomials exactly up to degree 2 with the error "
                      "(h^2/6) T:d^3 f above, and that the nested second / third derivatives are exact up to degree 3 / 4 and symmetric "
-                     "(cubic, fcc, bcc, orthorhombic, monoclinic, triclinic integer lattices; thorough: also tetragonal). On the real code "
-                     "the TLC states (quick: the cubic lattice and a seeded quarter of the others; thorough: all) are replayed on "
+                     "(cubic, fcc, bcc, monoclinic integer lattices and a triclinic and a 3:4:5 orthorhombic one on which the shell procedure ends "
+                     "with a NEGATIVE shell weight; thorough: also tetragonal and two more). On the real code the TLC states (quick: the cubic "
+                     "lattice, the low-degree states of the negative-weight lattices and a seeded quarter of the others; thorough: all) are replayed on "
                      "SystemKP.derHam/der2Ham/der3Ham with h = 2^-6, sharply where every centro-symmetric second-order scheme is exact and "
                      "against the error term measured on the system under test for cubic monomials, with a C h^2 bound for quartic ones; "
                      "random Hermitian integer polynomials are recorded (TLC checks the integer-scaled values and the declared stencil); "
                      "Hermiticity, evaluate_k/run() with, without and with partly analytic derivatives, the h^2 scaling, a smooth "
-                     "Hamiltonian, a triclinic and hexagonal lattice and the default finite_diff_dk are compared in floating point.",
+                     "Hamiltonian, a triclinic and hexagonal lattice, seeded random triclinic lattices (at least two with a negative shell weight) "
+                     "and the default finite_diff_dk are compared in floating point.",
                 note="exploration. One TLC unit of the recorded values is 1/(2^(2q) Dw) for derHam (about the size of the h^2 error term), "
                      "2^-q/sc for der2Ham and 1/sc for der3Ham (sc = 1 in the Cartesian convention): the TLC clauses on der2Ham/der3Ham are "
                      "coarse, the sharp comparisons of the recorded calls are the floating-point ones (1e-6 / 1e-5). Which stencil "
@@ -244,6 +246,39 @@ def _analytic(e, dirs, x):
     return c * x[0] ** e[0] * x[1] ** e[1] * x[2] ** e[2]
 
 
+def mirror_shell_weights(basis, isearch=3):
+    """harness-side mirror of the Wannier90 shell procedure (float): the weights per selected shell, or None.  Used only to
+    CHOOSE inputs (which random lattices have a negative shell weight) independently of the code under test"""
+    basis = np.array(basis, dtype=float)
+    basis = basis / np.linalg.norm(basis, axis=1).max()
+    n = np.array([v for v in itertools.product(range(-isearch, isearch + 1), repeat=3) if any(v)])
+    b = n @ basis
+    ln = np.linalg.norm(b, axis=1)
+    order = np.argsort(ln, kind="stable")
+    b, ln = b[order], ln[order]
+    brd = [0] + [i + 1 for i in range(len(ln) - 1) if ln[i + 1] - ln[i] > 1e-8] + [len(ln)]
+    shells = [b[i:j] for i, j in zip(brd, brd[1:])][:50]
+    sel = []
+    for sh in shells:
+        par = False
+        for s0 in sel:
+            c = np.linalg.norm(np.cross(s0[:, None, :], sh[None, :, :]), axis=2) / (np.linalg.norm(s0, axis=1)[:, None] * np.linalg.norm(sh, axis=1)[None, :])
+            if c.min() < 1e-6:
+                par = True
+                break
+        if par:
+            continue
+        M = np.array([(x.T @ x).reshape(-1) for x in sel + [sh]])
+        sv = np.linalg.svd(M, compute_uv=False)
+        if sv.min() < 1e-7:
+            continue
+        sel.append(sh)
+        w = np.linalg.lstsq(M.T, np.eye(3).reshape(-1), rcond=None)[0]
+        if np.linalg.norm(M.T @ w - np.eye(3).reshape(-1)) < 1e-5:
+            return w
+    return None
+
+
 def find_shells_adapter(skipped):
     """the private find_shells (module name with a dunder prefix) or None"""
     try:
@@ -308,9 +343,10 @@ def _check(rep, tier, scratch):
 
     # ---------------- spec
     if thorough:
-        lats, ksn, d3max, d3cmax = ["cubic", "fcc", "bcc", "tetra2", "ortho", "mono", "tri"], 2, 4, 12
+        lats, ksn, d3max, d3cmax = ["cubic", "fcc", "bcc", "tetra2", "ortho", "mono", "tri", "triN", "orthoN"], 2, 4, 12
     else:
-        lats, ksn, d3max, d3cmax = ["cubic", "fcc", "bcc", "ortho", "mono", "tri"], 1, 3, 8
+        # triN / orthoN: the shell procedure ends with a negative shell weight there (a sign-sensitive filter or solver breaks them)
+        lats, ksn, d3max, d3cmax = ["cubic", "fcc", "bcc", "orthoN", "mono", "triN"], 1, 3, 8
     st = run_mc(scratch.name("c31_stencil"), mc_cfg(lats, 4, ksn, d3max, d3cmax))
     ftable.spec_violation(rep, st, "c31_stencil")
     rep.add_tlc("c31_stencil", st)
@@ -336,6 +372,10 @@ def _check(rep, tier, scratch):
             n_err += 1
     if set(bydeg) != {0, 1, 2, 3, 4} or not n_d3 or not n_err:
         raise MachineryError(f"vacuous model c31_stencil: degrees {bydeg}, states with third derivative {n_d3}, cubic monomials with error term {n_err}")
+    neg_lats = sorted(lat for lat, s in stencils.items() if any(w[0] < 0 for _, w in s["C"]))
+    if not neg_lats:
+        raise MachineryError("vacuous catalogue: no stencil of the specification has a negative shell weight")
+    rep.part("c31_stencil", lattices_with_a_negative_shell_weight=neg_lats)
     rep.part("c31_stencil", states_by_degree=bydeg, states_with_third_derivative=n_d3, cubic_monomials_with_nonzero_error=n_err,
              stencils={lat: dict(vectors=len(s["C"]), weights=sorted({f"{w[0]}/{w[1]}" for _, w in s["C"]})) for lat, s in stencils.items()})
     # sensitivity: "exact for cubic polynomials" must be refuted by TLC
@@ -398,7 +438,7 @@ def _check(rep, tier, scratch):
 
     # ---------------- spec -> code: replay of TLC derivative states on SystemKP (h = 2^-6)
     M2 = 1 * S0 + 2 * SX - 1 * SY + 3 * SZ
-    sel = derivs if thorough else [s for s in derivs if s["lat"] == "cubic" or rng.random() < 0.25]
+    sel = derivs if thorough else [s for s in derivs if s["lat"] == "cubic" or (s["lat"] in neg_lats and sum(s["e"]) <= 2) or rng.random() < 0.25]
     worst = dict(d1=0.0, d2=0.0, d3=0.0, herm=0.0)
     TOL_REPLAY = 1e-6
     nrepl = 0
@@ -814,6 +854,66 @@ def _numeric_parts(rep, rng, cat, thorough, find_shells, skipped, scratch):
     rep.part("numeric_only_default_dk_and_irrational_lattices", rows=rows, worst_deviation_default_dk=wd,
              tolerances=dict(default_dk=(1e-7, 1e-3, 2.0), irrational=(1e-7, 1e-6, 1e-5)),
              note="rounding noise grows like eps/h^n: the third derivative with the default h = 1e-4 is only accurate to ~1e-5..1e-4 relative")
+
+    # --- (3b) seeded random triclinic reciprocal lattices; the harness-side mirror of the shell procedure says which of them have a
+    #          negative shell weight (drawn until enough of those are found): derivatives exact on quadratics, h^2 law on cubics
+    want_neg, want_pos = (4, 2) if thorough else (2, 1)
+    chosen = []
+    ndraw = 0
+    while (sum(c[1] for c in chosen) < want_neg or sum(not c[1] for c in chosen) < want_pos) and ndraw < 400:
+        ndraw += 1
+        B = np.eye(3) + 0.4 * np.array([[rng.gauss(0, 1) for _ in range(3)] for _ in range(3)])
+        if abs(np.linalg.det(B)) < 0.3:
+            continue
+        w = mirror_shell_weights(B)
+        if w is None or np.abs(w).min() < 1e-4:
+            continue                      # no stencil in the box / a weight too close to zero to be classified
+        neg = bool(w.min() < 0)
+        if sum(c[1] == neg for c in chosen) < (want_neg if neg else want_pos):
+            chosen.append((B, neg, w))
+    if sum(c[1] for c in chosen) < want_neg:
+        raise MachineryError(f"only {sum(c[1] for c in chosen)} random triclinic lattices with a negative shell weight in {ndraw} draws")
+    tri_rows = []
+    for B, neg, w in chosen:
+        hq = 2.0 ** -6
+        k = np.array([0.11, -0.07, 0.05])
+        z = k @ B
+        hq2 = random_poly(rng, 2, 2, 5)
+        hc3 = random_poly(rng, 2, 3, 5)
+        info = dict(recip_lattice=B.tolist(), finite_diff_dk=hq, k_red=k.tolist(), negative_shell_weight_expected=neg, mirror_weights=[float(x) for x in w],
+                    quadratic=[(C.tolist(), e) for C, e in hq2.terms], cubic=[(C.tolist(), e) for C, e in hc3.terms])
+        rep.case(("random_triclinic", neg, round(float(B[0, 0]), 9)))
+        try:
+            s2 = quiet_call(SystemKP, hq2, kmax=None, recip_lattice=B, finite_diff_dk=hq)
+            s3 = quiet_call(SystemKP, hc3, kmax=None, recip_lattice=B, finite_diff_dk=hq)
+            s3h = quiet_call(SystemKP, hc3, kmax=None, recip_lattice=B, finite_diff_dk=hq / 2)
+            g2 = [np.array(s2.derHam(k)), np.array(s2.der2Ham(k)), np.array(s2.der3Ham(k))]
+            g3 = [np.array(s3.derHam(k)), np.array(s3.der2Ham(k)), np.array(s3.der3Ham(k))]
+            g3h = np.array(s3h.derHam(k))
+        except Exception as ex:  # noqa
+            rep.violation("raises:SystemKP:" + type(ex).__name__, dict(info, error=repr(ex)[:300]))
+            continue
+        I3 = np.eye(3)
+        a2 = [hq2.der_cart(z, o, I3) for o in (1, 2, 3)]
+        a3 = [hc3.der_cart(z, o, I3) for o in (1, 2, 3)]
+        dq = [float(np.abs(g - a).max() / max(1.0, np.abs(a).max())) for g, a in zip(g2, a2)]
+        dc = [float(np.abs(g - a).max() / max(1.0, np.abs(a).max())) for g, a in zip(g3, a3)]
+        eh, eh2 = float(np.abs(g3[0] - a3[0]).max()), float(np.abs(g3h - a3[0]).max())
+        tri_rows.append(dict(negative_shell_weight=neg, quadratic_dev=dq, cubic_dev=dc, derHam_error_h=eh, derHam_error_half_h=eh2))
+        for nm, v, tol in zip(("derHam", "der2Ham", "der3Ham"), dq, (1e-9, 1e-7, 1e-5)):
+            if v > tol:
+                rep.violation(f"SystemKP:random_triclinic:{nm}:quadratic", dict(info, deviation=v, tolerance=tol,
+                                                                                 what="the numerical derivative of a quadratic Hamiltonian is not exact"))
+        for nm, v, tol in zip(("der2Ham", "der3Ham"), dc[1:], (1e-7, 1e-5)):
+            if v > tol:
+                rep.violation(f"SystemKP:random_triclinic:{nm}:cubic", dict(info, deviation=v, tolerance=tol))
+        if eh > 1e-7 and eh2 > 1e-8 and not 3.0 < eh / eh2 < 5.0:
+            rep.violation("SystemKP:random_triclinic:h2_scaling", dict(info, error_h=eh, error_half_h=eh2, ratio=eh / eh2))
+        if eh > 1e4 * hq * hq * max(1.0, float(np.abs(a3[2]).max())):
+            rep.violation("SystemKP:random_triclinic:derHam:bound", dict(info, error_h=eh))
+    rep.part("numeric_only_random_triclinic", lattices=len(chosen), with_negative_shell_weight=sum(c[1] for c in chosen), draws=ndraw, rows=tri_rows,
+             tolerances=dict(quadratic=(1e-9, 1e-7, 1e-5), ratio="3 < e(h)/e(h/2) < 5"),
+             note="which lattices have a negative shell weight is decided by a harness-side mirror of the shell procedure, not by the code under test")
 
     # --- (4) the stencil must not depend on the length scale: a complete stencil must be found for every scale of the basis
     scale_rows = []
